@@ -7,7 +7,11 @@ import zlib
 from common import Atom, Case, Run, call_impl, prepare, enc_graph, enc_label, sx, ImplError
 from c13 import rand_pattern, parse_contract_ok, check_model_spec, finalize_model_spec
 
-PROOFS = ["FGVerif.Proofs.C14"]
+import genparsed
+
+# GenParsed: the generated parsed tables this check consumes are what the parser model makes of the
+# generated pattern strings (a parser change that alters how a shipped pattern parses breaks it)
+PROOFS = ["FGVerif.Proofs.C14", "FGVerif.Proofs.C14Iter", genparsed.MODULE]
 
 
 # ---------------------------------------------------------------------------
@@ -195,6 +199,7 @@ def run(tier, seed):
     r = Run("C14", tier, seed)
     if not prepare(r, PROOFS, "C14"):
         return 2
+    genparsed.audit_into(r, only=["fast", "refs", "proxy_"])
     rng = r.rng
     contract = {}
     cases = table_cases(r, contract)
@@ -208,6 +213,20 @@ def run(tier, seed):
                 # are the decidable hypotheses of the C14 theorems true on the inputs that produce results?
                 if not (isinstance(o.model, list) and o.model[:1] == ["raised"]):
                     r.count("theorem_hypotheses_hold" if o.extra[3] == "1" else "theorem_hypotheses_FALSE_on_input_with_results")
+            if o.ok_reply and o.case.tags and o.case.tags[0] == "generate" and len(o.extra) >= 3:
+                # conservation at the iter(Proxy) level: how often does the side condition (no parallel bonds left
+                # to collapse in the build_graphs result) fail?  The driver applies the conservation check to the
+                # implementation's samples whose side condition holds (symbols: to all of them).
+                try:
+                    n_res, n_fail = int(o.extra[1]), int(o.extra[2])
+                except (TypeError, ValueError):
+                    n_res = n_fail = 0
+                r.count("iter_results_total", n_res)
+                r.count("iter_results_side_condition_fails(parallel_bonds_collapse)", n_fail)
+                r.count("iter_results_bond_conservation_checked_on_impl", n_res - n_fail)
+                r.count("iter_runs_total")
+                if n_fail:
+                    r.count("iter_runs_with_side_condition_failure")
             if o.ok_reply and o.case.tags and o.case.tags[0].startswith("table:"):
                 r.notes[o.case.tags[0]] = {"refs_match": o.model, "totalExp_generated_table": o.extra[0] if o.extra else None,
                                            "totalExp_parsed_config": o.extra[1] if len(o.extra) > 1 else None,
@@ -320,10 +339,14 @@ def run(tier, seed):
              "bounded to <= 400 (quick) / 1500 (thorough) results; observable = the whole enumeration as a sorted list of canonical graphs "
              "for build_graphs and iter(Proxy), exact graphs for replace_next_node; the generated tables of the shipped collections; "
              "thorough: DielsAlderProxy(neg_sample=False/True) completely (fingerprints one by one + per-result spec)",
-        checker_cmd="cd lean && lake build FGVerif.Proofs.C14 && lake env lean FGVerif/Audit/C14.lean",
+        checker_cmd="cd lean && lake build FGVerif.Proofs.C14 && lake env lean FGVerif/Audit/C14.lean && " + genparsed.CHECKER_CMD,
         explanation="theorems in lean/FGVerif/Proofs/C14*.lean about Model/C14.lean (+C13); table obligations da_count_pos/neg by kernel "
                     "evaluation of the count formula on the generated tables; model tied to fgutils.proxy by differential testing; "
-                    "executable spec (count formula, no group label left, contiguous ids, conservation) on implementation outputs")
+                    "executable spec (count formula, no group label left, contiguous ids, conservation at the build_graphs level and - "
+                    "for samples without parallel bonds to collapse; symbols for all samples - at the iter(Proxy) level) on implementation outputs; "
+                    + genparsed.EXPLANATION + " — for C14: GenParsed.da_pos_refs_parsed / da_neg_refs_parsed / common_refs_parsed "
+                    "(label references and anchors of Generated/C14.lean from the pattern strings) and proxy_patterns_parsed (the model "
+                    "returns the real parser's graph on every shipped proxy pattern)")
 
 
 def groups_from_meta(meta):
